@@ -9,6 +9,16 @@ AN = "pdl-compiler/src/analyzer.rs"
 def inventory(tree=None):
     tree = tree or stages.repo_syn(AN)
     fns = synq.functions(tree)
+    synq.INLINE_FNS.clear()
+    synq.INLINE_FNS.update({k: v for k, v in synq.single_expression_fns(tree).items()
+                            if k not in ("bit_width", "scalar_max")})      # kept by name: canonical() relates the two
+    try:
+        return _inventory(fns)
+    finally:
+        synq.INLINE_FNS.clear()
+
+
+def _inventory(fns):
     out = []
     for name, f in fns.items():
         if name.startswith("test::") or "::" in name and name.split("::")[0] == "test":
